@@ -34,6 +34,8 @@ type Run struct {
 	// queries, exhausted bounds and timeouts of such a run are reported in evidence as
 	// "attempted, undecided" and do not make the check inconclusive; violations still count.
 	BestEffort bool
+	// crossOf: this run repeats runs[crossOf-1] with another solver (thorough tier)
+	crossOf int
 }
 
 type Extra struct {
@@ -59,6 +61,10 @@ type Spec struct {
 	// Custom runs non-harness obligations (ground tables etc.).
 	Custom      func(ctx *Ctx) *Extra
 	Assumptions []string
+	// CrossSolver: in the thorough tier every regular run is repeated with cvc5 and the two
+	// explorations must agree on the number of feasible paths, the reach labels and the
+	// number of violations (the set of feasible paths does not depend on the solver)
+	CrossSolver bool
 }
 
 type Ctx struct {
@@ -107,17 +113,17 @@ type ReplayInput struct {
 }
 
 type ReplayFile struct {
-	Property string        `json:"property"`
-	Harness  string        `json:"harness"`
-	Pkg      string        `json:"pkg"`
-	Func     string        `json:"func"`
-	Kind     string        `json:"kind"`
-	Label    string        `json:"label"`
-	Detail   string        `json:"detail,omitempty"`
+	Property string           `json:"property"`
+	Harness  string           `json:"harness"`
+	Pkg      string           `json:"pkg"`
+	Func     string           `json:"func"`
+	Kind     string           `json:"kind"`
+	Label    string           `json:"label"`
+	Detail   string           `json:"detail,omitempty"`
 	Globals  map[string]int64 `json:"globals,omitempty"`
-	Expect   string        `json:"expect"` // fail | pass
-	Reaches  []string      `json:"reaches,omitempty"`
-	Inputs   []ReplayInput `json:"inputs"`
+	Expect   string           `json:"expect"` // fail | pass
+	Reaches  []string         `json:"reaches,omitempty"`
+	Inputs   []ReplayInput    `json:"inputs"`
 }
 
 func inputsOf(vs []sym.InputVal) []ReplayInput {
@@ -258,7 +264,7 @@ func NativeReplay(p *sym.Program, pkgRel string, files []string, race bool) (map
 	}
 	// test driver
 	var sb strings.Builder
-	fmt.Fprintf(&sb, "package %s\n\nimport (\n\t\"fmt\"\n\t\"os\"\n\t\"strings\"\n\t\"testing\"\n\n\t\"github.com/mandykoh/prism/zzverif/api\"\n)\n\n", pkgName)
+	fmt.Fprintf(&sb, "package %s\n\nimport (\n\t\"fmt\"\n\t\"os\"\n\t\"strings\"\n\t\"testing\"\n\t\"time\"\n\n\t\"github.com/mandykoh/prism/zzverif/api\"\n)\n\n", pkgName)
 	sb.WriteString("var verifHarnessTable = map[string]func(){\n")
 	for _, fn := range harnessFuncs(p, pkgRel) {
 		fmt.Fprintf(&sb, "\t%q: %s,\n", fn, fn)
@@ -297,7 +303,20 @@ func NativeReplay(p *sym.Program, pkgRel string, files []string, race bool) (map
 	if h == nil {
 		panic(api.Invalid{"unknown harness " + fn})
 	}
-	h()
+	done := make(chan interface{}, 1)
+	go func() {
+		defer func() { done <- recover() }()
+		h()
+	}()
+	select {
+	case r := <-done:
+		if r != nil {
+			panic(r)
+		}
+	case <-time.After(60 * time.Second):
+		api.Failures = append(api.Failures, "steps budget: the call did not return within 60 s")
+		return
+	}
 	api.Finish()
 }
 
@@ -428,6 +447,20 @@ func RunProperty(id, tier string, seed int64) int {
 	if spec.Runs != nil {
 		runs = spec.Runs(tier, seed)
 	}
+	if tier == "thorough" && spec.CrossSolver {
+		n := len(runs)
+		for i := 0; i < n; i++ {
+			r := runs[i]
+			if r.NegControl || r.BestEffort || r.H.Cfg.OneShotAll || r.H.Cfg.UFTables {
+				continue
+			}
+			c := *r
+			c.H.Solver = "cvc5"
+			c.SamplePaths = 0
+			c.crossOf = i + 1
+			runs = append(runs, &c)
+		}
+	}
 	results := make([]*runResult, len(runs))
 	var wg sync.WaitGroup
 	sem := make(chan struct{}, 14)
@@ -438,6 +471,14 @@ func RunProperty(id, tier string, seed int64) int {
 			sem <- struct{}{}
 			defer func() { <-sem }()
 			h := r.H
+			if h.WallBudgetMs == 0 {
+				// a run that needs longer than this is reported as an exhausted bound
+				// (inconclusive), never as success
+				h.WallBudgetMs = 900000
+				if tier == "thorough" {
+					h.WallBudgetMs = 2400000
+				}
+			}
 			if r.SamplePaths > 0 {
 				h.SampleModels = r.SamplePaths
 			}
@@ -461,9 +502,31 @@ func RunProperty(id, tier string, seed int64) int {
 	var pend []*pendingViolation
 	replayByPkg := map[string][]string{}
 	sampleFiles := map[string]*ReplayFile{}
+	crossAgree := 0
+	for _, rr := range results {
+		if rr.run.crossOf == 0 {
+			continue
+		}
+		a, b := results[rr.run.crossOf-1].rep, rr.rep
+		same := a.Paths == b.Paths && a.Completed == b.Completed && len(a.Violations) == len(b.Violations) && len(a.Reaches) == len(b.Reaches)
+		for l, n := range a.Reaches {
+			if b.Reaches[l] != n {
+				same = false
+			}
+		}
+		if !same {
+			broken = append(broken, fmt.Sprintf("%s: z3 and cvc5 disagree on the exploration (paths %d/%d, completed %d/%d, violations %d/%d, reaches %v/%v): encoding or solver suspect", a.Harness, a.Paths, b.Paths, a.Completed, b.Completed, len(a.Violations), len(b.Violations), a.Reaches, b.Reaches))
+		} else {
+			crossAgree++
+		}
+	}
+	crossAgreeGlobal = crossAgree
 	for _, rr := range results {
 		rep, r := rr.rep, rr.run
 		name := rep.Harness
+		if r.crossOf != 0 {
+			name += " [cvc5]"
+		}
 		if r.BestEffort {
 			n := len(rep.EngineErrors) + len(rep.BoundsHit) + len(rep.Inconclusive) + len(rep.SolverErrors)
 			if n > 0 {
@@ -615,6 +678,11 @@ func RunProperty(id, tier string, seed int64) int {
 					if f == pv.v.Label || (pv.v.Kind != "assert" && strings.HasPrefix(f, pv.v.Kind)) {
 						confirmed = true
 					}
+					// alloc and steps are the two faces of one resource budget: a witness
+					// that natively exhausts the other one confirms the violation
+					if (pv.v.Kind == "alloc" || pv.v.Kind == "steps") && (strings.HasPrefix(f, "alloc") || strings.HasPrefix(f, "steps")) {
+						confirmed = true
+					}
 				}
 				if !confirmed && nr.Panic != "" && pv.v.Kind != "assert" {
 					confirmed = true
@@ -711,6 +779,21 @@ func summary(results []*runResult, extra *Extra, wall time.Duration) {
 	}
 }
 
+var crossAgreeGlobal int
+
+func solverName(r *Run) string {
+	switch {
+	case r.H.Cfg.OneShotAll:
+		return "portfolio z3 4.8.12 / cvc5 / z3 5.1 (fresh process per query)"
+	case r.H.Solver != "":
+		return r.H.Solver
+	}
+	if r.H.Cfg.OneShotAsserts {
+		return "z3 4.8.12 (feasibility), portfolio (assertions)"
+	}
+	return "z3 4.8.12"
+}
+
 func writeEvidence(spec *Spec, tier string, seed int64, results []*runResult, extra *Extra, violSamples []interface{}, broken []string, validated int, wall time.Duration, prog *sym.Program) {
 	ev := &Evidence{PropertyID: spec.ID, Tier: tier, Seed: seed, Level: spec.Level, Coverage: map[string]interface{}{}, WallS: wall.Seconds()}
 	cov := ev.Coverage
@@ -755,7 +838,7 @@ func writeEvidence(spec *Spec, tier string, seed int64, results []*runResult, ex
 			"queries": r.Queries, "unsat": r.Unsat, "sat": r.Sat, "unknown": r.Unknown,
 			"asserts_discharged_by_solver": r.Asserts - r.TrivialAsserts, "asserts_syntactically_identical": r.TrivialAsserts,
 			"symbolic_inputs": r.Inputs, "max_path_ssa_instructions": r.MaxPathSteps, "solver_s": r.SolverTime.Seconds(),
-			"negative_control": rr.run.NegControl, "violations": len(r.Violations),
+			"negative_control": rr.run.NegControl, "violations": len(r.Violations), "solver": solverName(rr.run),
 		})
 		for i, s := range r.Samples {
 			if i >= 2 {
@@ -808,6 +891,9 @@ func writeEvidence(spec *Spec, tier string, seed int64, results []*runResult, ex
 	}
 	cov["problems"] = broken
 	cov["attempted_beyond_claim"] = bestEffortGlobal
+	if tier == "thorough" && spec.CrossSolver {
+		cov["cross_solver"] = fmt.Sprintf("every regular run repeated with cvc5 1.0.x: %d of them agree with z3 4.8.12 on feasible paths, reach labels and violations", crossAgreeGlobal)
+	}
 	var fl []string
 	for f := range funcs {
 		fl = append(fl, f)
